@@ -287,8 +287,12 @@ def check(ctx):
                 q, r = D.divmod_vids(st, ts[1], 86_400)
                 sub = bool_cases(st, D.aff_of(d))
                 good = bool(sub)
+                qe, _re = D.divmod_euclid(st, ts[1], 86_400, force=True)
                 for s2 in sub:
                     this = False
+                    # (the Euclidean quotient is the floor itself)
+                    if D.aff_equiv(D.aff_of(d), D.aff_add(D.aff_of(qe), D.aff_const(DAYS_TO_1970)), 0, st=s2):
+                        this = True
                     for cand in (D.aff_add(D.aff_of(q), D.aff_const(DAYS_TO_1970)), D.aff_add(D.aff_of(q), D.aff_const(DAYS_TO_1970 - 1))):
                         if D.aff_equiv(D.aff_of(d), cand, 0, st=s2):
                             rl, rh = D.get_iv(s2, r)
